@@ -90,7 +90,7 @@ var sliceStructure = &structure{
 	},
 	finish: func(recs []rec) {
 		for i := range recs {
-			recs[i].Res = "*"
+			recs[i].Res = resAll
 		}
 	},
 	model: porcupine.Model{
